@@ -25,6 +25,12 @@ fn may_be_negative(name: &str) -> bool {
 }
 
 fn check_dump(what: &str, d: &crate::canon::Dump) -> Result<(), String> {
+    // very long peak lists are dumped as per-chunk digests with a finite/non-negative flag
+    for (name, v) in &d.0 {
+        if name.ends_with(".finite_nonneg") && matches!(v, crate::canon::Val::B(false)) {
+            return Err(format!("{what}: {name} is false (a peak in that chunk is negative or not finite)"));
+        }
+    }
     for (name, v) in d.floats() {
         if !v.is_finite() {
             return Err(format!("{what}: {name} = {v} is not finite"));
